@@ -36,6 +36,15 @@ F32 = dict(rtol=2e-5, atol=2e-6)
 # helpers
 
 
+def _digest(x):
+    """Short stand-in for a long observation inside the signature."""
+    t = str(x)
+    if len(t) <= 400:
+        return t
+    import hashlib
+    return hashlib.sha1(t.encode()).hexdigest()
+
+
 def _input_class(sp):
     if sp["n_links"] == 0:
         return "edgeless"
@@ -154,8 +163,8 @@ class Judge:
                     x[0] for x in d["attrs"]], got, exp))
             st.append("A:" + ",".join(x[0] for x in d["attrs"]))
         self.sig.append((path, "ok" if not st else ";".join(st),
-                         o["N"], o["n_links"], str(o["adjacency"]),
-                         str(o["node_weights"]), str(o["attr_names"])))
+                         o["N"], o["n_links"], _digest(o["adjacency"]),
+                         _digest(o["node_weights"]), str(o["attr_names"])))
         return o
 
     def result(self, trivial=False):
@@ -242,7 +251,7 @@ def fam_paths(case):
     base = outcome(build(adjacency=sp["A"]))
     if base[0] == "ok":
         b = base[1]
-        J.sig.append(("base", str(NR.observe(b))))
+        J.sig.append(("base", _digest(NR.observe(b))))
         # edge_list() itself: all (i,j) with a link, row-major (docstring)
         J.evals += 1
         el = outcome(lambda: np.asarray(b.edge_list()).tolist())
@@ -285,11 +294,15 @@ def fam_paths(case):
     J.viol = uniq
     # undirected_copy on symmetric input
     if base[0] == "ok" and np.array_equal(A, A.T):
-        umask = 0
-        from ..domains import pairs
-        for k, (i, j) in enumerate(pairs(N, False)):
-            if A[i, j]:
-                umask |= 1 << k
+        if isinstance(mask, (list, tuple)):
+            umask = [[i, j] for i in range(N) for j in range(i + 1, N)
+                     if A[i, j]]
+        else:
+            umask = 0
+            from ..domains import pairs
+            for k, (i, j) in enumerate(pairs(N, False)):
+                if A[i, j]:
+                    umask |= 1 << k
         spu = NR.spec(N, False, umask, wk, 0 if sp["directed"] else na)
         J.judge("Network", "undirected_copy",
                 outcome(lambda: base[1].undirected_copy()), sp=spu,
@@ -449,6 +462,12 @@ LATS = [0.0, 30.0, 60.0, -45.0, 15.0, 75.0]
 NWT = ("surface", "irrigation", None)
 
 
+def _lats(n):
+    if n <= len(LATS):
+        return LATS[:n]
+    return [-80.0 + 160.0 * ((i * 7) % n) / (n - 1) for i in range(n)]
+
+
 def _geo_weights(grid, nwt):
     """From the latitudes as the grid reports them (float32 storage)."""
     lat = np.asarray(grid.lat_sequence(), dtype=float)
@@ -517,7 +536,7 @@ def _spatial(case):
                        lambda ext: (_fname("sp", ext), _fname("sp", "grid")),
                        sp, fold=fold)
         return J
-    grid = GeoGrid(t, np.array(LATS[:n]), np.array([10.0 * i
+    grid = GeoGrid(t, np.array(_lats(n)), np.array([10.0 * i
                                                     for i in range(n)]),
                    silence_level=3)
     fold = _network_gml_failures(sp)
@@ -763,7 +782,58 @@ def fam_consumers(case):
     return J.result()
 
 
+# ---------------------------------------------------------------------------
+# family: the same judgements on larger structured networks (block sizes,
+# int16 flat indices i*N+j >= 32768, components of 9..23 nodes)
+
+SCALE_QUICK = [
+    # (family, n, directed, graph kind, weight vector, link attributes)
+    ("paths", 33, False, "ring-chords-tail", 1, 1),
+    ("paths", 62, False, "components", 2, 1),
+    ("paths", 150, False, "ring-chords", 1, 1),
+    ("paths", 182, False, "ring-chords", 1, 1),
+    ("paths", 182, True, "ring-chords", 2, 1),
+    ("paths", 200, False, "ring-chords", 2, 2),
+    ("paths", 209, False, "ring-chords-tail", 1, 1),
+    ("paths", 260, False, "ring-chords", 1, 1),
+    ("paths", 300, False, "ring-chords", 2, 1),
+    ("files", 182, False, "ring-chords", 1, 1),
+    ("files", 182, True, "ring-chords", 2, 1),
+    ("files", 200, False, "ring-chords", 2, 2),
+    ("files", 260, False, "ring-chords", 1, 1),
+    ("spatial", 182, False, "ring-chords", 1, 1, "spatial"),
+    ("spatial", 200, False, "ring-chords", 2, 1, "geo"),
+    ("spatial", 182, False, "ring-chords", 0, 0, "climate"),
+    ("consumers", 62, False, "components", 1, 1),
+    ("consumers", 130, False, "ring-chords-tail", 1, 1),
+    ("consumers", 182, True, "ring-chords", 1, 1),
+]
+SCALE_THOROUGH = [
+    ("paths", 257, False, "ring-chords", 1, 1),
+    ("paths", 330, True, "ring-chords", 1, 2),
+    ("paths", 520, False, "ring-chords-tail", 2, 1),
+    ("files", 300, False, "ring-chords-tail", 1, 2),
+    ("files", 520, False, "ring-chords", 2, 1),
+    ("spatial", 260, False, "ring-chords", 1, 1, "geo"),
+    ("spatial", 260, False, "ring-chords", 1, 1, "spatial"),
+    ("consumers", 200, False, "ring-chords", 2, 1),
+]
+
+
+def fam_scale(case):
+    fam, n, directed, kind, wk, na = case[:6]
+    edges = NR.structured(kind, n, directed)
+    if fam == "paths":
+        return fam_paths((n, directed, edges, wk, na))
+    if fam == "files":
+        return fam_files((n, directed, edges, wk, na))
+    if fam == "spatial":
+        return fam_spatial((n, directed, edges, wk, na, case[6]))
+    return fam_consumers((n, directed, edges, 0))
+
+
 FAMILIES = {"paths": fam_paths, "files": fam_files, "spatial": fam_spatial,
+            "scale": fam_scale,
             "consumers": fam_consumers}
 
 
@@ -814,6 +884,11 @@ def run(ctx):
                 "ClimateNetwork constructor paths and save -> Load")
     ctx.explore("consumers", [(n, d, m, ctx.seed) for (n, d, m) in small],
                 desc="internal consumers of the construction paths")
+    scale = list(SCALE_QUICK) + (SCALE_THOROUGH if thorough else [])
+    ctx.explore("scale", scale, chunk=1, desc="larger structured networks "
+                "(ring with chords incl. links at the last nodes, isolated "
+                "tail, interleaved components) through the same families")
+    ctx.notes["scale_inputs"] = [list(c) for c in scale]
     ctx.notes["graphs"] = len(graphs)
     ctx.notes["bound"] = "undirected n<=%s, directed n<=%s" % (
         "5 labelled" if thorough else "4 labelled + iso(5)",
@@ -828,6 +903,11 @@ def run(ctx):
         "Load failures of edgeless graphs and local_vulnerability failures "
         "are attributed to Network.FromIGraph (one root cause, one key) "
         "when FromIGraph raises the same exception on the same graph",
+        "scale family: fixed list of structured networks with 33..300 "
+        "(thorough ..520) nodes run through the paths / files / spatial / "
+        "consumers judgements unchanged; not exhaustive, it places inputs "
+        "just above N=128/256 (row blocks), N=182 (int16 flat index) and "
+        "components of 9/12/15/23 nodes",
         "randomly_rewire: only invariants that hold for every random "
         "outcome are judged (N, link count, degree sequence, weights "
         "length, adjacency/graph agreement); random is seeded with "
